@@ -106,7 +106,11 @@ pub fn run(stdout: &mut StandardStream, hy_opt: &HyeongOption) -> Result<(), Err
             _ => {
                 let code = parse::parse(input);
                 for c in code.iter() {
-                    state = execute::execute(&mut stdin(), &mut out, &mut err, state, c)?;
+                    state = io::flush_on_err(
+                        execute::execute(&mut stdin(), &mut out, &mut err, state, c),
+                        &mut out,
+                        &mut err,
+                    )?;
                 }
             }
         }
